@@ -39,10 +39,29 @@ def doGet : List String → Option String
     | _ => none
   | _ => none
 
+/-- `resolve.run <k> <entries…> <n> <req>{n}` → `refused <code> ran -` | `ok ran <i>*`: the
+outcome of `Executor.Run` on the requests — which tasks ran, in order, or the error class of
+the first request that does not resolve (then nothing ran). -/
+def doRun : List String → Option String
+  | k :: r => do
+    let k ← k.toNat?
+    let (tbl, r') ← parseTable k r
+    match r' with
+    | n :: reqs =>
+      let n ← n.toNat?
+      if reqs.length ≠ n then none else
+      let reqs ← reqs.mapM unhexChars
+      match runCheck tbl reqs with
+      | .refused c => some s!"refused {c} ran -"
+      | .ran is => some (" ".intercalate ("ok" :: "ran" :: is.map toString))
+    | _ => none
+  | _ => none
+
 def handle (op : String) (args : List String) : Option String :=
   match op with
   | "resolve.match" => doMatch args
   | "resolve.get" => doGet args
+  | "resolve.run" => doRun args
   | _ => none
 
 end Driver.Resolve
